@@ -91,8 +91,9 @@ CMP = {ast.Lt: operator.lt, ast.LtE: operator.le, ast.Gt: operator.gt, ast.GtE: 
 
 
 class Interp:
-    def __init__(self, glob, loop_bound=16):
+    def __init__(self, glob, loop_bound=16, exact_div=False):
         self.glob = glob
+        self.exact_div = exact_div   # int/int division of concrete operands is kept as an exact Fraction (not a rounded double)
         self.loop_bound = loop_bound
         self.merge_depth = 0
         self.unwind = []       # unwinding assertions (z3 terms that must hold)
@@ -147,6 +148,11 @@ class Interp:
         r = ctx.cur()
         if r is not None and isinstance(n.op, (ast.Div, ast.Mod, ast.FloorDiv, ast.Pow)):
             r.where = ast.unparse(n)[:70]
+        if self.exact_div and isinstance(n.op, ast.Div):
+            from fractions import Fraction
+            ok = lambda v: isinstance(v, (int, Fraction, rnp.integer)) and not isinstance(v, (bool, rnp.bool_))
+            if ok(a) and ok(b) and b != 0:
+                return Fraction(int(a) if not isinstance(a, Fraction) else a) / Fraction(int(b) if not isinstance(b, Fraction) else b)
         return BIN[type(n.op)](a, b)
 
     def e_Compare(self, n, env):
@@ -519,3 +525,10 @@ class _Closure:
 
 def find_nodes(tree, typ, pred=None):
     return [n for n in ast.walk(tree) if isinstance(n, typ) and (pred is None or pred(n))]
+
+
+def run_function(f, glob, args=(), kwargs=None, exact_div=True, loop_bound=16):
+    """interpret a whole function from its current source"""
+    fd = get_function_ast(f)
+    I = Interp(glob, loop_bound=loop_bound, exact_div=exact_div)
+    return _Closure(I, fd, {})(*args, **(kwargs or {}))
